@@ -157,6 +157,13 @@ def poly_program(rng):
         ("reading", ["v"], ["    if v < 0:", "        return False", "    return v * 1.5"], ["num"]),
         ("level", ["v"], ["    if v < 0:", "        return 0", "    return v / 4.0"], ["num"]),
         ("flagged", ["v"], ["    if v < 0:", "        return True", "    return v + 2"], ["int"]),
+        ("halve", ["a"], ["    a = a * 0.5", "    return a"], ["int"]),
+        ("bump", ["level"], ["    level += 0.25", "    return level"], ["int"]),
+        ("localt", ["a"], ["    tshared = a * 0.5", "    return tshared"], ["int"]),
+        ("looponly", ["n"], ["    for k in range(n):", "        mon.write(k)", "    return n"], ["int"]),
+        # the whole body is one compound statement (arguments are positive, so a value is always returned)
+        ("onlyif", ["v"], ["    if v > 0:", "        w = v * 2", "        return w"], ["num"]),
+        ("onlyloop", ["v"], ["    while v > 0:", "        w = v + v", "        mon.write(w)", "        return w"], ["num"]),
         ("clampf", ["v"], ["    if v > 1000:", "        return 1000", "    if v < 0:", "        return False", "    return v * 0.5"], ["num"]),
     ]
     chosen = rng.sample(bodies, rng.randint(1, 3))
@@ -177,6 +184,9 @@ def poly_program(rng):
             order.append(f"r{len(order)} = {name}({', '.join(args)})")
             order.append(f"mon.write(r{len(order) - 1 if False else len(order) // 2})") if False else None
     # emit calls + prints (result names are unique)
+    if rng.random() < 0.4:
+        # a comprehension variable that shadows a typed outer name must not change that name's type afterwards
+        L += ["kq = 0.5", "xs = [kq * 2 for kq in range(3)]", "zq = kq + 1", "mon.write(zq)", "mon.write(xs[2])"]
     k = 0
     for name, params, body, kinds in chosen:
         pools = {"num": ["iv", "fv", "iw", "fw2", "3"], "int": ["iw", "2", "3"], "any": ["iv", "fv", "sv"]}
@@ -185,6 +195,9 @@ def poly_program(rng):
             L.append(f"res{k} = {name}({', '.join(args)})")
             L.append(f"mon.write(res{k})")
             k += 1
+    if any(name == "localt" for name, *_ in chosen):
+        # a global created later with the same name as a helper's local must stay unrelated to it
+        L += ["tshared = 7", "mon.write(tshared)", "again = localt(5)", "mon.write(again)", "mon.write(tshared)"]
     return "\n".join(L) + "\n"
 
 
